@@ -33,7 +33,7 @@ def row_bytes(a):
 
 
 class StandardMonitors:
-    def __init__(self, model, stop_at_iteration=None, max_problems=40):
+    def __init__(self, model, stop_at_iteration=None, max_problems=12):
         self.model = model
         self.problems = []          # (property, key, detail)
         self.counts = {}
@@ -48,6 +48,7 @@ class StandardMonitors:
         self.finalise_calls = 0
         self.max_contour_excess = 0.0
         self.abort_after = 6
+        self.abort_props = None
         self.abort_pending = False
         self.iteration_budget = 60   # in units of nlive; nominal runs of the zoo models need < 10
 
@@ -56,9 +57,10 @@ class StandardMonitors:
         self.counts[k] = self.counts.get(k, 0) + n
 
     def problem(self, prop, key, detail):
-        if len(self.problems) < self.max_problems:
+        if sum(1 for q in self.problems if q[0] == prop) < self.max_problems:  # cap per property, so one property cannot crowd out another
             self.problems.append((prop, key, str(detail)[:400]))
-        self.abort_pending = len(self.problems) >= self.abort_after
+        # only witnesses of the properties the running check decides may cut the run short
+        self.abort_pending = sum(1 for q in self.problems if self.abort_props is None or q[0] in self.abort_props) >= self.abort_after
 
     def maybe_abort(self, ns=None):
         """Called at iteration boundaries: stop a run that already has its witnesses, or that exceeds its logical budget."""
